@@ -89,17 +89,16 @@ theorem track_ext (st : State) (s : Nat) (v : Val) (disp : Bool) : Ext st (track
       · exact Ext.refl st s
   · split <;> exact Ext.refl st s
 
+theorem putInstance_ext (st : State) (s : Nat) (k : Ident) (v : Val) : Ext st (putInstance st s k v) s := by
+  unfold putInstance
+  apply ext_updScope <;> intro sc <;> rfl
+
 theorem setInstance_ext (st : State) (s : Nat) (d : Desc) (k : Ident) (v : Val) (hl : d.life ≠ .singleton) :
     Ext st (setInstance st s d k v).1 s := by
   unfold setInstance
   split
   · contradiction
-  · have h1 : Ext st (updScope st s (fun sc =>
-        match sc.instances with
-        | some m => { sc with instances := some ((k, v) :: m.filter (fun p => p.1 != k)) }
-        | none => sc)) s := by
-      apply ext_updScope <;> intro sc <;> split <;> rfl
-    exact h1.trans (track_ext _ s v d.disp)
+  · exact (putInstance_ext st s k v).trans (track_ext _ s v d.disp)
   · exact track_ext st s v d.disp
 
 theorem shareInstance_ext (st : State) (s : Nat) (d : Desc) (k : Ident) (v : Val) (hl : d.life ≠ .singleton) :
@@ -107,7 +106,7 @@ theorem shareInstance_ext (st : State) (s : Nat) (d : Desc) (k : Ident) (v : Val
   unfold shareInstance
   split
   · contradiction
-  · apply ext_updScope <;> intro sc <;> split <;> rfl
+  · exact putInstance_ext st s k v
   · exact Ext.refl st s
 
 theorem storeOuts_ext (s : Nat) : ∀ (sibs : List Desc) (outs : List Inst) (st : State),
